@@ -106,8 +106,9 @@ def run(ctx):
     from ..helpers import term_lookup, unknown_callee, with_helpers
     stl = term_lookup(prog, send)
     send_fns = with_helpers(prog, send)
-    from ._pipeline import read_returns_decoded, send_writes_wrapped
+    from ._pipeline import read_returns_decoded, send_writes_wrapped, write_reaches_wire
     send_writes_wrapped(ctx, "C01.c")
+    write_reaches_wire(ctx, "C01.c")
     # every element appended to the result comes from self._read() / self._read_available()
     ret_names = {n.value.id for n in ast.walk(send.node) if isinstance(n, ast.Return) and isinstance(n.value, ast.Name)}
     # appends to the returned list: in send itself, or in a helper that receives the list as an argument (once per call site)
